@@ -1,8 +1,8 @@
 (* Properties/C09.v - host parsing and serialization.  Only statements, closed by `exact`.
-   Lemmas: Proofs/C09_V6.v, C09_V6rt.v, C09_V6form.v, C09_V4.v, C09_Wf.v, C09_Host.v. *)
+   Lemmas: Proofs/C09_V6.v, C09_V6rt.v, C09_V6form.v, C09_V4.v, C09_Wf.v, C09_Host.v, C09_V6sim.v, C09_V6total.v. *)
 From RU Require Import Base.Prelude Base.Utf8 Model.AsciiSet Gen.Tables Model.PercentEncoding Model.HostT Model.Host
   Spec.WhatwgHost Proofs.C09_V6 Proofs.C09_V6rt Proofs.C09_V6form Proofs.C09_V4 Proofs.C09_Wf Proofs.C09_Host
-  Proofs.C09_V4spec Proofs.C09_V6spec Proofs.C09_Reject.
+  Proofs.C09_V4spec Proofs.C09_V6spec Proofs.C09_Reject Proofs.C09_V6sim Proofs.C09_V6total.
 
 (* ---- the regenerated literal sets are the Standard's ---- *)
 Theorem C09_tables :
@@ -173,6 +173,48 @@ Check C09_ipv6_spec_partial :
         parse_ipv6addr s = match Spec.ipv6_parse s with Some a => XOk a | None => XErr InvalidIpv6Address end).
 Print Assumptions C09_ipv6_spec_partial.
 
+(* the full statement (Proofs/C09_V6sim.v: simulation of the Standard's pointer machine by the model's
+   index/fuel loops, on the bytes of the string) *)
+Theorem C09_ipv6_spec : C09_ipv6_spec_statement.
+Proof. exact (conj write_ipv6_spec ipv6_parse_spec_full). Qed.
+Check C09_ipv6_spec :
+  (forall a, length a = 8%nat /\ Forall (fun x => x < 65536) a -> write_ipv6 a = Spec.ipv6_serialize a)
+  /\ (forall s, usv_list s -> parse_ipv6addr (utf8_encode s) =
+                match Spec.ipv6_parse s with Some a => XOk a | None => XErr InvalidIpv6Address end).
+Print Assumptions C09_ipv6_spec.
+
+(* stronger than the second conjunct: no hypothesis on the code points; and the function on arbitrary
+   byte lists (as a &[u8] function: a byte above 127 fails exactly like a code point above 127) *)
+Theorem C09_ipv6_parse_all :
+  (forall s, parse_ipv6addr (utf8_encode s) =
+             match Spec.ipv6_parse s with Some a => XOk a | None => XErr InvalidIpv6Address end)
+  /\ (forall l, parse_ipv6addr l =
+                match Spec.ipv6_parse l with Some a => XOk a | None => XErr InvalidIpv6Address end).
+Proof. exact (conj ipv6_parse_spec_str ipv6_parse_spec_bytes). Qed.
+Check C09_ipv6_parse_all :
+  (forall s, parse_ipv6addr (utf8_encode s) =
+             match Spec.ipv6_parse s with Some a => XOk a | None => XErr InvalidIpv6Address end)
+  /\ (forall l, parse_ipv6addr l =
+                match Spec.ipv6_parse l with Some a => XOk a | None => XErr InvalidIpv6Address end).
+Print Assumptions C09_ipv6_parse_all.
+
+(* ---- '['-led inputs: both entry points return what the Standard's host parser returns for an IPv6
+   literal - failure unless the input ends in ']', else the Standard's IPv6 parser on the text between
+   the brackets (the IDNA oracle is not asked) ---- *)
+Theorem C09_ipv6_literal : forall idna input, starts_with 91 input = true ->
+  host_parse idna input = literal_result input /\ host_parse_opaque input = literal_result input.
+Proof. exact literal_spec. Qed.
+Check C09_ipv6_literal : forall idna input, starts_with 91 input = true ->
+  host_parse idna input =
+    (if ends_with 93 input then
+       match Spec.ipv6_parse (removelast (tl input)) with Some a => Ok (HIpv6 a) | None => Err InvalidIpv6Address end
+     else Err InvalidIpv6Address)
+  /\ host_parse_opaque input =
+    (if ends_with 93 input then
+       match Spec.ipv6_parse (removelast (tl input)) with Some a => Ok (HIpv6 a) | None => Err InvalidIpv6Address end
+     else Err InvalidIpv6Address).
+Print Assumptions C09_ipv6_literal.
+
 (* ---- no panic, no fuel exhaustion.  Full statement: for every input of both entry points.  Proved:
    for every input that is not a '['-led literal (the IPv6 parser's index and fuel bounds are covered
    only by the correspondence run, where the model reports PANIC / FUEL as outcomes). ---- *)
@@ -185,6 +227,15 @@ Check C09_total_partial :
   (forall idna input, starts_with 91 input = false -> no_panic (host_parse_x idna input))
   /\ (forall input, starts_with 91 input = false -> no_panic (host_parse_opaque_x input)).
 Print Assumptions C09_total_partial.
+
+(* the full statement: every input of both entry points, '['-led literals included (every checked index,
+   the u16 overflow check of the embedded IPv4 part, the usize underflow checks of the swap loop and the
+   fuel of every loop of parse_ipv6addr: Proofs/C09_V6sim.v, C09_V6total.v) *)
+Theorem C09_total : C09_total_statement.
+Proof. exact total_full. Qed.
+Check C09_total :
+  (forall idna input, no_panic (host_parse_x idna input)) /\ (forall input, no_panic (host_parse_opaque_x input)).
+Print Assumptions C09_total.
 
 (* ---- opaque hosts: reject exactly the forbidden host code points, C0-control-percent-encode the rest ---- *)
 Theorem C09_opaque : forall input, usv_list input -> starts_with 91 input = false ->
